@@ -6,6 +6,7 @@
 -/
 import Basyx.Lemmas.Codec
 import Basyx.Gen.JsonTable
+import Basyx.Gen.XmlTable
 namespace Basyx.C18
 open Basyx.Codec Basyx.Gen.Json
 
@@ -23,6 +24,26 @@ theorem c18_sets_agree :
       sameSet ((ct.rows.filter (·.decStrip)).map (·.member)) (specOf ct.cls)) = true := by decide
 
 theorem c18_tables_wf : wfTableB jsonTable = true := by decide
+
+def xmlSpecOf (c : String) : List String :=
+  match Basyx.Gen.Xml.specDetachable.find? (fun e => e.1 = c) with
+  | some e => e.2
+  | none => []
+
+/-- The XML reader's `not cls.stripped` guards (regenerated from xml_deserialization.py) cover exactly the
+    specification's detachable members as well — so the JSON writer, the JSON reader and the XML reader agree. -/
+theorem c18_xml_reader_flags_agree :
+    Basyx.Gen.Xml.xmlTable.all (fun ct =>
+      sameSet ((ct.rows.filter (·.decStrip)).map (·.member)) (xmlSpecOf ct.cls)) = true := by decide
+
+theorem c18_xml_tables_wf : wfTableB Basyx.Gen.Xml.xmlTable = true := by decide
+
+/-- Reading any XML document the writer produces with the stripped XML reader yields the value with exactly the
+    detachable parts removed, at every depth. -/
+theorem c18_xml_stripped_reader (k : Kind) (v : Val) (h : ConfV Basyx.Gen.Xml.xmlTable k v) :
+    dec Basyx.Gen.Xml.xmlTable true k (enc Basyx.Gen.Xml.xmlTable false v) = .ok (strip Basyx.Gen.Xml.xmlTable true v) := by
+  have := rt_val Basyx.Gen.Xml.xmlTable false true (wf_of_wfTableB _ c18_xml_tables_wf) k v h
+  rwa [Bool.false_or] at this
 
 /-- **Writer.**  The stripped rendering of any conforming value equals its full rendering minus exactly the
     detachable members — at every nesting depth (objects nested inside kept members are treated alike). -/
